@@ -16,7 +16,7 @@ Import ListNotations.
 From EN Require Import Lib.Bytes Lib.Sx Conc.Close.
 
 Definition res_code (r : res) : Z :=
-  match r with ROk => 0 | RErr => 1 | RCancel => 2 | RForced => 5 | RShutdown => 6 | RTimeoutErr => 3 | RBusy => 4 end%Z.
+  match r with ROk => 0 | RErr => 1 | RCancel => 2 | RForced => 5 | RShutdown => 6 | RTimeoutErr => 3 | RBusy => 4 | ROther => 9 end%Z.
 
 Fixpoint dec_base (fuel : nat) (x : sx) : option base :=
   match fuel with
@@ -56,8 +56,13 @@ Definition mk_path (code : Z) (t : tr) : option path :=
   | 3 => Some (PEndpoint t) | 4 => Some (PClient t) | 5 => Some (PApi t)
   | 6 => Some (PTaskExit t false) | 7 => Some (PTaskExit t true)
   | 8 => Some (PClientConnecting t)
+  | 9 => Some (PTaskExitCbRaises t) | 10 => Some (PEndpointDirty t) | 11 => Some (PClientDirty t)
   | _ => None
   end%Z.
+
+(* a later close: the parser generator has been discarded by the first receiver.clear() *)
+Definition again (p : path) : path :=
+  match p with PEndpointDirty t => PEndpoint t | PClientDirty t => PClient t | q => q end.
 
 Definition flags (w : world) : sx := L [of_bool (w_leaf w 0); of_bool (w_leaf w 1)].
 Definition fds (b : base) (w : world) : sx := L [of_bool (fd_released b w 0); of_bool (fd_released b w 1)].
@@ -71,11 +76,11 @@ Definition run (x : sx) : sx :=
       let '(r, w, ls') := run_path p env0 (world0 (Z.eqb lock 1)) ls in
       let snd :=
         if Z.eqb second 1 then
-          let '(r2, w2, _) := run_path p env0 w ls' in
+          let '(r2, w2, _) := run_path (again p) env0 w ls' in
           L [A (res_code r2); of_nat (w_used w2 - w_used w); flags w2; fds (tr_base (path_tr p)) w2]
         else if Z.eqb second 2 then
-          let '(r2, w2, ls2) := run_path p env0 w ls' in
-          let '(r3, w3, _) := run_path p env0 w2 ls2 in
+          let '(r2, w2, ls2) := run_path (again p) env0 w ls' in
+          let '(r3, w3, _) := run_path (again p) env0 w2 ls2 in
           L [A (res_code r2); of_nat (w_used w2 - w_used w); flags w2; fds (tr_base (path_tr p)) w2;
              A (res_code r3); of_nat (w_used w3 - w_used w2)]
         else L [] in
